@@ -341,6 +341,18 @@ class BackendProvider(ABC):
         """
         return None
 
+    def _compiled_helpers(self):
+        """Functions that generated code may call (bound into its namespace).
+
+        Verbs whose Klong meaning is not that of a Python operator are compiled
+        to a call of the interpreter's own verb, so that compiled and
+        interpreted evaluation cannot disagree on them.
+        """
+        from ..dyads import eval_dyad_power
+        return {
+            '_kg_power': lambda a, b: eval_dyad_power(a, b, self),
+        }
+
     @staticmethod
     def _collect_params(ir):
         """Collect unique parameter names from IR tree in order."""
